@@ -161,12 +161,14 @@ def single_defs(f):
     """local -> ('rv', rvalue, at) | ('call', terminator, at) for locals assigned exactly once (whole place)."""
     cnt = collections.Counter()
     d = {}
+    alld = collections.defaultdict(list)
     for i, b in blocks(f):
         for s in b['stmts']:
             if s['k'] == 'assign':
                 if not s['place']['proj']:
                     cnt[s['place']['local']] += 1
                     d[s['place']['local']] = ('rv', s['rv'], s.get('at'))
+                    alld[s['place']['local']].append(('rv', s['rv'], s.get('at')))
                 elif s['place']['proj'][0]['k'] != 'deref':
                     cnt[s['place']['local']] += 2  # partially written: not single-def
         t = b['term']
@@ -174,9 +176,12 @@ def single_defs(f):
             if not t['dest']['proj']:
                 cnt[t['dest']['local']] += 1
                 d[t['dest']['local']] = ('call', t, t.get('at'))
+                alld[t['dest']['local']].append(('call', t, t.get('at')))
             elif t['dest']['proj'][0]['k'] != 'deref':
                 cnt[t['dest']['local']] += 2
-    return {k: v for k, v in d.items() if cnt[k] == 1}
+    out = {k: v for k, v in d.items() if cnt[k] == 1}
+    out['__all__'] = {k: v for k, v in alld.items() if cnt[k] == len(v) and 1 < len(v) <= 8}
+    return out
 
 
 def dominators(f):
@@ -533,8 +538,19 @@ def roots_place(f, defs, pl, depth=16, _seen=None):
     if d is None:
         if 1 <= loc <= f['arg_count']:
             return [('param', loc)]
+        multi = defs.get('__all__', {}).get(loc)
+        if multi:
+            out = []
+            for dm in multi:
+                out += _roots_def(f, defs, pl, dm, depth - 1, _seen | {loc})
+            return out
         return [('local', loc)]
     _seen = _seen | {loc}
+    return _roots_def(f, defs, pl, d, depth, _seen)
+
+
+def _roots_def(f, defs, pl, d, depth, _seen):
+    loc = pl['local']
     if d[0] == 'call':
         t = d[1]
         p = call_path(t) or ''
@@ -558,6 +574,8 @@ def roots_place(f, defs, pl, depth=16, _seen=None):
         return out or [('agg', rv)]
     if k == 'binop':
         return roots(f, defs, rv['l'], depth - 1, _seen) + roots(f, defs, rv['r'], depth - 1, _seen)
+    if k == 'unop':
+        return roots(f, defs, rv['x'], depth - 1, _seen)
     return [('local', loc)]
 
 
